@@ -35,3 +35,4 @@ for (mid, pid, path, old, new, desc) in M:
         print(f"{mid} {pid} {verdict} {time.time()-t0:.0f}s: {desc} | {viol[0] if viol else ''}", flush=True)
     finally:
         sh("git -C /repo checkout -- .")
+        sh("git -C /verif checkout -- evidence/")  # evidence files must come from runs on the unchanged tree
